@@ -261,7 +261,7 @@ func c10RunBackup(cs c10case) (obs string, fails []string) {
 	opt := client.DefaultOption
 	opt.SerializeType = protocol.JSON
 	opt.Heartbeat = false
-	opt.BackupLatency = 15 * time.Millisecond
+	opt.BackupLatency = 150 * time.Millisecond // long enough for an immediate answer to win against the timer under load
 	xc := client.NewXClient("Svc", client.Failbackup, client.SelectByUser, d, opt)
 	defer xc.Close()
 	xc.SetSelector(&rrSel{servers: keys, i: cs.rr})
